@@ -188,3 +188,28 @@ pub open spec fn err_means_infeasible(old_live: Live, c: Model, r: PropagationSt
 pub open spec fn ok_keeps_nonempty(old_live: Live, new_live: Live, r: PropagationStatusCP) -> bool {
     r is Ok && !live_empty(old_live) ==> !live_empty(new_live)
 }
+
+// The read-only context (PropagationContext): same read contract as the mutable one.
+#[derive(Clone, Copy)]
+pub struct PropagationContext<'a> {
+    pub assignments: &'a Assignments,
+}
+impl<'a> PropagationContext<'a> {
+    pub open spec fn live(&self) -> Live { self.assignments.live@ }
+    pub uninterp spec fn lb<V: IntegerVariable>(&self, var: &V) -> int;
+    pub uninterp spec fn ub<V: IntegerVariable>(&self, var: &V) -> int;
+
+    #[verifier::external_body]
+    pub fn lower_bound<V: IntegerVariable>(&self, var: &V) -> (r: i32)
+        ensures r == self.lb(var),
+                forall|a: Asg| #![trigger (self.live())(a)] (self.live())(a) ==> var.eval(a) >= r,
+                !live_empty(self.live()) ==> exists|a: Asg| #![trigger (self.live())(a)] (self.live())(a) && var.eval(a) == r,
+    { unimplemented!() }
+
+    #[verifier::external_body]
+    pub fn upper_bound<V: IntegerVariable>(&self, var: &V) -> (r: i32)
+        ensures r == self.ub(var),
+                forall|a: Asg| #![trigger (self.live())(a)] (self.live())(a) ==> var.eval(a) <= r,
+                !live_empty(self.live()) ==> exists|a: Asg| #![trigger (self.live())(a)] (self.live())(a) && var.eval(a) == r,
+    { unimplemented!() }
+}
